@@ -49,6 +49,7 @@ var topNamePool = []string{"Params", "Msg", "Request", "Response", "Item", "Conf
 var enumNamePool = []string{"Kind", "Status", "Mode"}
 
 type randomGen struct {
+	baseNames []string        // per package: base name of its Go import path (nil: pkgN)
 	usedTop map[string]bool // proto package + "." + name
 	t     *simhook.Tape
 	opts  RandomOpts
@@ -63,6 +64,11 @@ func RandomSet(t *simhook.Tape, opts RandomOpts) []*descriptorpb.FileDescriptorP
 	g := &randomGen{t: t, opts: opts, usedTop: map[string]bool{}}
 	nFiles := 1 + t.Draw("rs.files", 4)
 	nPkgs := 1 + t.Draw("rs.pkgs", 3)
+	if opts.Tag == "" && t.Chance("rs.collidingbases", 1, 2) {
+		for i := 0; i < nPkgs; i++ {
+			g.baseNames = append(g.baseNames, []string{"v1beta1", "v1", "types"}[t.Draw("rs.basename", 3)])
+		}
+	}
 	for i := 0; i < nFiles; i++ {
 		pkg := t.Draw("rs.pkgof", nPkgs)
 		g.genFile(i, pkg)
@@ -103,6 +109,12 @@ func (g *randomGen) genFile(idx, pkg int) {
 		Package: proto.String(pkgName),
 		Syntax:  proto.String("proto3"),
 		Options: &descriptorpb.FileOptions{GoPackage: proto.String(fmt.Sprintf("example.com/rnd/pkg%d;pkg%d", pkg, pkg))},
+	}
+	if g.opts.Tag == "" && g.baseNames != nil {
+		// Go import paths of different packages may share their base name
+		// (.../mod0/v1beta1, .../mod1/v1beta1): protogen then has to invent
+		// import aliases per output file
+		fd.Options.GoPackage = proto.String(fmt.Sprintf("example.com/rnd/mod%d/%s", pkg, g.baseNames[pkg]))
 	}
 	if g.opts.Tag != "" {
 		pkgName = fmt.Sprintf("rnd.%s.pkg%d", g.opts.Tag, pkg)
